@@ -21,14 +21,9 @@ fn same(got: &[u8], want: &[u8]) -> bool {
     true
 }
 
-fn id_string(id: &[u8; 4], len: usize) -> String {
-    let mut s = String::with_capacity(4);
-    let mut i = 0;
-    while i < len {
-        s.push(id[i] as char);
-        i += 1;
-    }
-    s
+fn id_string(_id: &[u8; 4], len: usize) -> String {
+    // ids are literal (see shapes::any_id)
+    String::from(&"Ec7_"[..len])
 }
 
 /// One argument layout, both byte orders: as_bytes == reference, len() ==
@@ -66,118 +61,131 @@ pub const fn sn(kind: AK, body_len: usize, scod: u8, trai: bool) -> ArgShape {
     ArgShape { kind, vari: false, name_len: 0, unit_len: 0, body_len, scod, trai }
 }
 
-/// StorageHeader::as_bytes for every id length 0..4.
-#[kani::proof]
-#[kani::unwind(8)]
-fn c02w_storage_header() {
-    let mut len = 0;
-    while len <= 4 {
-        let id = any_id(len);
-        let secs: u32 = kani::any();
-        let micros: u32 = kani::any();
-        let sh = StorageHeader { timestamp: DltTimeStamp { seconds: secs, microseconds: micros }, ecu_id: id_string(&id, len) };
-        let got = sh.as_bytes();
-        let mut h = any_header_data(IDS_FULL, 1, 0, 0);
-        h.st_secs = secs;
-        h.st_micros = micros;
-        h.st_ecu = id;
-        h.st_ecu_len = len;
-        let mut want = Buf::<16>::new();
-        put_storage_header(&mut want, &h);
-        assert!(same(&got, want.slice()), "storage header bytes differ from the reference layout");
-        std::mem::forget(got);
-        std::mem::forget(sh);
-        len += 1;
-    }
+/// StorageHeader::as_bytes for one id length (0..4), symbolic times.
+fn w_storage_header(len: usize) {
+    let id = any_id(len);
+    let secs: u32 = kani::any();
+    let micros: u32 = kani::any();
+    let sh = StorageHeader { timestamp: DltTimeStamp { seconds: secs, microseconds: micros }, ecu_id: id_string(&id, len) };
+    let got = sh.as_bytes();
+    let mut h = any_header_data(IDS_FULL, 1, 0, 0);
+    h.st_secs = secs;
+    h.st_micros = micros;
+    h.st_ecu = id;
+    h.st_ecu_len = len;
+    let mut want = Buf::<16>::new();
+    put_storage_header(&mut want, &h);
+    assert!(same(&got, want.slice()), "storage header bytes differ from the reference layout");
     kani::cover!(true);
+    std::mem::forget(got);
+    std::mem::forget(sh);
 }
 
-/// StandardHeader::as_bytes for all 8 presence combinations (concrete loop),
-/// both byte orders, ext flag, all versions, arbitrary payload length that
-/// fits the 16-bit length field.
-#[kani::proof]
-#[kani::unwind(8)]
-fn c02w_standard_header() {
-    let mut combo = 0u8;
-    while combo < 8 {
-        let weid = combo & 1 != 0;
-        let wsid = combo & 2 != 0;
-        let wtms = combo & 4 != 0;
-        let big: bool = kani::any();
-        let ueh: bool = kani::any();
-        let version: u8 = kani::any();
-        kani::assume(version < 8);
-        let ecu_len: usize = 3;
-        let ecu = any_id(ecu_len);
-        let mut flags = 0u8;
-        if ueh { flags |= HTYP_UEH; }
-        if big { flags |= HTYP_MSBF; }
-        if weid { flags |= HTYP_WEID; }
-        if wsid { flags |= HTYP_WSID; }
-        if wtms { flags |= HTYP_WTMS; }
-        let hl = headers_len(flags) as u16;
-        let payload_length: u16 = kani::any();
-        kani::assume(payload_length <= u16::MAX - hl);
-        let mut h = any_header_data(IDS_FULL, version, 0, 0);
-        h.ecu = ecu;
-        h.ecu_len = ecu_len;
-        let sh = StandardHeader {
-            version,
-            endianness: if big { Endianness::Big } else { Endianness::Little },
-            has_extended_header: ueh,
-            message_counter: h.mcnt,
-            ecu_id: if weid { Some(id_string(&ecu, ecu_len)) } else { None },
-            session_id: if wsid { Some(h.session) } else { None },
-            timestamp: if wtms { Some(h.timestamp) } else { None },
-            payload_length,
-        };
-        let got = sh.as_bytes();
-        let mut want = Buf::<16>::new();
-        put_standard_header(&mut want, flags, &h, hl + payload_length);
-        assert!(same(&got, want.slice()), "standard header bytes differ from the reference layout");
-        assert!(sh.overall_length() == hl + payload_length);
-        std::mem::forget(got);
-        std::mem::forget(sh);
-        combo += 1;
-    }
+/// StandardHeader::as_bytes for one presence combination: both byte orders, ext
+/// flag, all versions, arbitrary payload length that fits the 16-bit length field.
+fn w_standard_header(combo: u8) {
+    let weid = combo & 1 != 0;
+    let wsid = combo & 2 != 0;
+    let wtms = combo & 4 != 0;
+    let big: bool = kani::any();
+    let ueh: bool = kani::any();
+    let version: u8 = kani::any();
+    kani::assume(version < 8);
+    let ecu_len: usize = 3;
+    let ecu = any_id(ecu_len);
+    let mut flags = 0u8;
+    if weid { flags |= HTYP_WEID; }
+    if wsid { flags |= HTYP_WSID; }
+    if wtms { flags |= HTYP_WTMS; }
+    let hl_noext = headers_len(flags) as u16;
+    let hl = hl_noext + if ueh { 10 } else { 0 };
+    let payload_length: u16 = kani::any();
+    kani::assume(payload_length <= u16::MAX - hl);
+    let mut h = any_header_data(IDS_FULL, 0, 0, 0);
+    h.ecu = ecu;
+    h.ecu_len = ecu_len;
+    let sh = StandardHeader {
+        version,
+        endianness: if big { Endianness::Big } else { Endianness::Little },
+        has_extended_header: ueh,
+        message_counter: h.mcnt,
+        ecu_id: if weid { Some(id_string(&ecu, ecu_len)) } else { None },
+        session_id: if wsid { Some(h.session) } else { None },
+        timestamp: if wtms { Some(h.timestamp) } else { None },
+        payload_length,
+    };
+    let got = sh.as_bytes();
+    // reference bytes: HTYP from the layout table, MCNT, BE LEN, then ECU id, session id, timestamp
+    let mut want = Buf::<16>::new();
+    let htyp = flags | (ueh as u8) | ((big as u8) << 1) | ((version & 7) << 5);
+    want.put(htyp);
+    want.put(h.mcnt);
+    want.put_u16(true, hl + payload_length);
+    if weid { want.put_id(&ecu, ecu_len); }
+    if wsid { want.put_u32(true, h.session); }
+    if wtms { want.put_u32(true, h.timestamp); }
+    assert!(same(&got, want.slice()), "standard header bytes differ from the reference layout");
+    assert!(sh.overall_length() == hl + payload_length);
     kani::cover!(true);
+    std::mem::forget(got);
+    std::mem::forget(sh);
 }
 
-/// ExtendedHeader::as_bytes: every message type / sub-type, verbose flag,
-/// NOAR, id lengths 0..4.
-#[kani::proof]
-#[kani::unwind(8)]
-fn c02w_extended_header() {
+/// ExtendedHeader::as_bytes: every message type / sub-type, verbose flag, NOAR;
+/// application id of `len` bytes, context id of 4 - len bytes.
+fn w_extended_header(len: usize) {
     let msin: u8 = kani::any();
     let noar: u8 = kani::any();
-    let mut len = 0;
-    while len <= 4 {
-        let apid = any_id(len);
-        let ctid = any_id(4 - len);
-        let eh = ExtendedHeader {
-            verbose: msin & 1 == 1,
-            argument_count: noar,
-            message_type: crate::c14::ref_message_type(msin),
-            application_id: id_string(&apid, len),
-            context_id: id_string(&ctid, 4 - len),
-        };
-        let got = eh.as_bytes();
-        let mut want = Buf::<10>::new();
-        want.put(msin);
-        want.put(noar);
-        want.put_id(&apid, len);
-        want.put_id(&ctid, 4 - len);
-        assert!(same(&got, want.slice()), "extended header bytes differ from the reference layout");
-        std::mem::forget(got);
-        std::mem::forget(eh);
-        len += 1;
-    }
+    let apid = any_id(len);
+    let ctid = any_id(4 - len);
+    let eh = ExtendedHeader {
+        verbose: msin & 1 == 1,
+        argument_count: noar,
+        message_type: crate::c14::ref_message_type(msin),
+        application_id: id_string(&apid, len),
+        context_id: id_string(&ctid, 4 - len),
+    };
+    let got = eh.as_bytes();
+    let mut want = Buf::<10>::new();
+    want.put(msin);
+    want.put(noar);
+    want.put_id(&apid, len);
+    want.put_id(&ctid, 4 - len);
+    assert!(same(&got, want.slice()), "extended header bytes differ from the reference layout");
     kani::cover!(true);
+    std::mem::forget(got);
+    std::mem::forget(eh);
 }
+
+macro_rules! w_unit {
+    ($name:ident, $f:ident, $arg:expr) => {
+        #[kani::proof]
+        #[kani::unwind(20)]
+        fn $name() {
+            $f($arg);
+        }
+    };
+}
+w_unit!(c02w_storage_header_id0, w_storage_header, 0);
+w_unit!(c02w_storage_header_id1, w_storage_header, 1);
+w_unit!(c02w_storage_header_id3, w_storage_header, 3);
+w_unit!(c02w_storage_header_id4, w_storage_header, 4);
+w_unit!(c02w_standard_header_c0, w_standard_header, 0);
+w_unit!(c02w_standard_header_c1, w_standard_header, 1);
+w_unit!(c02w_standard_header_c2, w_standard_header, 2);
+w_unit!(c02w_standard_header_c3, w_standard_header, 3);
+w_unit!(c02w_standard_header_c4, w_standard_header, 4);
+w_unit!(c02w_standard_header_c5, w_standard_header, 5);
+w_unit!(c02w_standard_header_c6, w_standard_header, 6);
+w_unit!(c02w_standard_header_c7, w_standard_header, 7);
+w_unit!(c02w_extended_header_id0, w_extended_header, 0);
+w_unit!(c02w_extended_header_id1, w_extended_header, 1);
+w_unit!(c02w_extended_header_id3, w_extended_header, 3);
+w_unit!(c02w_extended_header_id4, w_extended_header, 4);
 
 /// PayloadContent::as_bytes for the non-argument payload kinds, both orders.
 #[kani::proof]
-#[kani::unwind(8)]
+#[kani::unwind(12)]
 fn c02w_payload_nonverbose_control() {
     let big: bool = kani::any();
     let mut extra = 0;
@@ -237,24 +245,24 @@ fn nettrace_payload(big: bool, lens: &[usize]) {
 }
 
 #[kani::proof]
-#[kani::unwind(8)]
+#[kani::unwind(24)]
 fn c02w_payload_nettrace_le() {
     nettrace_payload(false, &[2, 0, 3]);
 }
 
 #[kani::proof]
-#[kani::unwind(8)]
+#[kani::unwind(24)]
 fn c02w_payload_nettrace_be() {
     nettrace_payload(true, &[2, 0, 3]);
 }
 
 /// Verbose payload = concatenation of the argument encodings, in order.
 #[kani::proof]
-#[kani::unwind(20)]
+#[kani::unwind(40)]
 fn c02w_payload_verbose_concat() {
     let big: bool = kani::any();
-    let a0 = sn(AK::U(2), 0, 0, false);
-    let a1 = sv(AK::Bool, 1, 0, 0, 0, false);
+    let a0 = sn(AK::U(1), 0, 0, false);
+    let a1 = sn(AK::Bool, 0, 0, false);
     let d0 = any_arg_data(&a0);
     let d1 = any_arg_data(&a1);
     let p = PayloadContent::Verbose(vec![make_arg(&a0, &d0), make_arg(&a1, &d1)]);
@@ -266,4 +274,30 @@ fn c02w_payload_verbose_concat() {
     kani::cover!(true);
     std::mem::forget(got);
     std::mem::forget(p);
+}
+
+/// Probe: whole-message writer for the smallest shape.
+#[kani::proof]
+#[kani::unwind(24)]
+fn c02w_message_whole_nonverbose_min() {
+    let s = Shape { storage: false, htyp: H_MIN, msin: 0, ids: IDS_FULL, payload: P::NonVerbose(2) };
+    let h = any_header_data(s.ids, 1, 0, 0);
+    let id: u32 = kani::any();
+    let d: [u8; 2] = kani::any();
+    let m = Message {
+        storage_header: None,
+        header: StandardHeader { version: 1, endianness: Endianness::Little, has_extended_header: false, message_counter: h.mcnt, ecu_id: None, session_id: None, timestamp: None, payload_length: 6 },
+        extended_header: None,
+        payload: PayloadContent::NonVerbose(id, vec![d[0], d[1]]),
+    };
+    let got = m.as_bytes();
+    let mut want = Buf::<16>::new();
+    put_standard_header(&mut want, H_MIN & 0x1f, &h, 10);
+    want.put_u32(false, id);
+    want.put(d[0]);
+    want.put(d[1]);
+    assert!(same(&got, want.slice()), "whole message bytes differ from the reference layout");
+    kani::cover!(true);
+    std::mem::forget(got);
+    std::mem::forget(m);
 }
